@@ -15,6 +15,7 @@ CONSTANTS
   WithQueries = {WithQueries}
   WithMerge = {WithMerge}
   Profile = "{Profile}"
+  Seed = "{Seed}"
 VIEW View
 CONSTRAINT Bound
 INVARIANT TypeOK
@@ -37,6 +38,7 @@ CONSTANTS
   WithQueries = {WithQueries}
   WithMerge = {WithMerge}
   Profile = "{Profile}"
+  Seed = "{Seed}"
 VIEW View
 CONSTRAINT Bound
 ACTION_CONSTRAINT LogStep
@@ -44,9 +46,9 @@ CHECK_DEADLOCK FALSE
 """
 
 
-def consts(gids, nids, cls=("K1", "K2"), rels=("r1", "r2"), depth=3, queries=True, merge=True, profile="full"):
+def consts(gids, nids, cls=("K1", "K2"), rels=("r1", "r2"), depth=3, queries=True, merge=True, profile="full", seed="empty"):
     return {"GIDS": tlc.tla_set(gids), "NIDS": tlc.tla_set(nids), "CLS": tlc.tla_set(cls), "RELS": tlc.tla_set(rels),
-            "MaxDepth": depth, "WithQueries": "TRUE" if queries else "FALSE", "WithMerge": "TRUE" if merge else "FALSE", "Profile": profile}
+            "MaxDepth": depth, "WithQueries": "TRUE" if queries else "FALSE", "WithMerge": "TRUE" if merge else "FALSE", "Profile": profile, "Seed": seed}
 
 
 def model_check(rep, name, c, workers=16, timeout=3000):
@@ -103,6 +105,7 @@ class RandomStoreOps:
         self.r, self.gids, self.nids, self.cls, self.rels = rng, gids, nids, cls, rels
         self.pnames, self.vals, self.merge = pnames, vals, merge
         self.weights = weights or {}
+        self.seen_nodes, self.seen_edges, self._rel_hint = [], [], None
 
     def props(self, extra=()):
         k = self.r.choice([0, 0, 1, 2])
@@ -112,8 +115,18 @@ class RandomStoreOps:
     def op(self, have_doc, tampered=False):
         r = self.r
         g, h = r.choice(self.gids), r.choice(self.gids)
-        h2 = r.choice([x for x in self.gids if x != g])   # merging a graph with itself is outside the interface
         n, a, b = r.choice(self.nids), r.choice(self.nids), r.choice(self.nids)
+        # bias towards names that earlier operations of this script mentioned (no semantics: just the issued names)
+        if self.seen_nodes and r.random() < 0.6:
+            g, n = r.choice(self.seen_nodes)
+            a = n
+            same = [x for x in self.seen_nodes if x[0] == g]
+            b = r.choice(same)[1]
+        if self.seen_edges and r.random() < 0.5:
+            g, a, b, self._rel_hint = r.choice(self.seen_edges)
+        else:
+            self._rel_hint = None
+        h2 = r.choice([x for x in self.gids if x != g])   # merging a graph with itself is outside the interface
         table = [
             ("AddNode", 14, lambda: {"g": g, "n": n, "cls": r.choice(self.cls), "props": self.props()}),
             ("DeleteNode", 4, lambda: {"g": g, "n": n}),
@@ -146,10 +159,20 @@ class RandomStoreOps:
         i = r.choices(range(len(table)), weights=ws)[0]
         o = table[i][2]()
         o["op"] = names[i]
+        if o["op"] == "AddNode":
+            self.seen_nodes.append((o["g"], o["n"]))
+        if o["op"] == "AddLink":
+            self.seen_edges.append((o["g"], o["a"], o["b"], o["rel"]))
+        if o["op"] in ("Clone",):
+            self.seen_nodes += [(o["h"], x[1]) for x in self.seen_nodes if x[0] == o["g"]]
+        # for link operations sometimes use the relation the link was created with, sometimes another one
+        if "kind" in o and self._rel_hint and r.random() < 0.6:
+            o["kind"] = self._rel_hint
         return o
 
     def script(self, length):
         s, have_doc, tampered = [], False, False
+        self.seen_nodes, self.seen_edges = [], []
         for _ in range(length):
             o = self.op(have_doc, tampered)
             if o["op"] == "Export":
